@@ -44,6 +44,10 @@ STUBBED = ["durability of write-mode files (SimFile)", "OS errors", "process cra
 EMITS = ("class", "function", "argparse", "sqlalchemy", "sqlalchemy_table", "sqlalchemy_hybrid", "json_schema", "pydantic")
 KINDS = ("class", "function", "argparse", "json")
 TPLS = ("{name}Gen", "Auto{name}", "{name}_v2", "{name}")
+PREPENDS = ("PREPENDED = True\\n", "import os\\n", "from os import path\\n", "import json\\nPREPENDED = True\\n")
+IMPORT_FILES = (("imports_src.py", "import os\nfrom collections import OrderedDict\n\nX = 1\n"),
+                ("imports_future.py", "from __future__ import annotations\n\nX = 1\n"),
+                ("imports_one.py", "import json\n\nX = 1\n"))
 TYPING_NAMES = ("Optional", "Literal", "List", "Union", "Any", "Dict", "Tuple")
 SA_NAMES = ("Column", "Integer", "String", "Boolean", "Float", "Table", "Enum", "JSON", "LargeBinary", "BigInteger",
             "Identity", "ForeignKey", "Text", "PickleType")
@@ -90,6 +94,8 @@ def gen_step(draw, kind):
                                                     "sqlalchemy_hybrid", "json_schema", "function", "pydantic"))),
          "parse": draw(st.sampled_from(("infer", "explicit"))), "tpl": draw(st.sampled_from(TPLS)),
          "infer_imports": draw(st.booleans()), "prepend": draw(st.integers(0, 3)) == 3,
+         # what is prepended / which file the imports are taken from (index into PREPENDS / IMPORT_FILES)
+         "prepend_i": draw(st.integers(0, len(PREPENDS) - 1)), "imports_i": draw(st.integers(0, len(IMPORT_FILES) - 1)),
          "imports_from_file": draw(st.integers(0, 3)) == 3, "no_word_wrap": draw(st.booleans()),
          "phase": 0, "fault": None,
          # how the user spells the output path: absolute, relative to the cwd, or with a leading ~ (HOME = project dir)
@@ -191,9 +197,9 @@ def argv_of(stp, ent, in_rel):
     if stp.get("infer_imports"):
         argv.append("--emit-and-infer-imports")
     if stp.get("prepend"):
-        argv += ["--prepend", "PREPENDED = True\\n"]
+        argv += ["--prepend", PREPENDS[stp.get("prepend_i", 0) % len(PREPENDS)]]
     if stp.get("imports_from_file"):
-        argv += ["--imports-from-file", "{ROOT}/imports_src.py"]
+        argv += ["--imports-from-file", "{ROOT}/" + IMPORT_FILES[stp.get("imports_i", 0) % len(IMPORT_FILES)][0]]
     if stp.get("no_word_wrap"):
         argv.append("--no-word-wrap")
     if stp.get("phase"):
@@ -337,7 +343,8 @@ def simulate(plan):
 
     ent = plan["entries"]
     files, in_rel = render_input(ent)
-    files["imports_src.py"] = "import os\nfrom collections import OrderedDict\n\nX = 1\n"
+    for fn_, text_ in IMPORT_FILES:
+        files[fn_] = text_
     files["README.txt"] = "unrelated\n"
     world = SimWorld(tag="c19")
     files["sub"] = None
